@@ -63,7 +63,10 @@ ASSUMPTIONS = [
     "cross-check and for constructions outside namesOnce",
     "quantifier: variable names are those of the parser's name table (A..Z without P/Q, Pi, π, with optional digit or _digit); "
     "a user-chosen name outside the table (e.g. 'AA') cannot be parsed by design of parse_y0 and is outside the property; the one such "
-    "name the LIBRARY itself produces (TARGET_DOMAIN = 'pi*', the tag of transport estimands) is an OPEN known finding",
+    "name the LIBRARY itself produces (TARGET_DOMAIN = Population('pi*'), the tag of transport estimands) is inside: the fixed code "
+    "(127566e) prints that population as the DSL constant TARGET_DOMAIN, which the parser's table now knows; the model has the "
+    "constant as a keyword token and 30% of the generated PP[...] terms use it. A variable named 'pi*' anywhere else (a child, a "
+    "subscript) is a user-chosen name outside the table",
     "quantifier: each distribution, each subscript list, each Sum range and each Q-(co)domain mentions a name at most once "
     "(the property's own restriction, extended to subscripts: Y @ (+X, -X) is not generated); Q factors and ranges are non-empty",
     "the tie between the hand-written grammar (Model/PyParse) and Python's parser is correspondence stream (ii): `ast.parse` on every "
@@ -104,6 +107,10 @@ class Gen:
         if rng.random() < 0.15:
             pool[0] = rng.choice(EXOTIC)
         self.pool = list(dict.fromkeys(pool))
+
+    def popn(self):
+        """a population: a π name, or (30%) the library's own TARGET_DOMAIN, the tag of every transport estimand"""
+        return ["k", "TARGET_DOMAIN"] if self.rng.random() < 0.3 else _n(self.rng.choice(POPS))
 
     def mark(self, a, p=0.22):
         r = self.rng.random()
@@ -173,7 +180,7 @@ class Gen:
             args = [["bin", "bor", x, pv[0] if len(pv) == 1 else ["tup"] + pv]]
         head = ["k", "P"]
         if rng.random() < 0.22:
-            head = ["sub", ["k", "PP"], _n(rng.choice(POPS))]
+            head = ["sub", ["k", "PP"], self.popn()]
         if others and rng.random() < 0.28:
             k = min(len(others), rng.choice([1, 1, 2, 3]))
             ivs = [self.iv(n, stars[n]) for n in rng.sample(others, k)]
@@ -316,7 +323,7 @@ class Gen:
             tgt = pa if pa else ch
             plain = self.mark(_n(rest[nc + np_ - 1] if pa else rest[nc - 1]))
             tgt[-1] = plain if (k == 1 or rng.random() < 0.5) else ["bin", "matmul", plain, self.iv(ivn[0], stars[ivn[0]])]
-        head = ["k", "P"] if not pp else ["sub", ["k", "PP"], _n(rng.choice(POPS))]
+        head = ["k", "P"] if not pp else ["sub", ["k", "PP"], self.popn()]
         if level2 and rng.random() < 0.5:
             # the same object written with the builder's own subscript syntax
             ch = [self.mark(_n(n)) for n in rest[:nc]]
@@ -705,7 +712,10 @@ def run_python(case):
     # `domain`: the theorems' hypotheses hold of every object built from a names-once construction (outside: not claimed)
     out = {"built": ["ok", enc_e], "domain": "true" if once else "not-claimed", "names_once": "true" if once else "false"}
     tags["names_once"] = once
-    out["tokens"] = PC.tokens_of(s)
+    try:
+        out["tokens"] = PC.tokens_of(s)
+    except Exception as x:  # a name outside the parser's table, a character outside Python's token alphabet
+        out["tokens"] = ["not-tokens", type(x).__name__]
     try:
         out["ast"] = ["ok", PC.to_str_tree(PC.ast_of(s))]
     except (SyntaxError, PC.OutsideFragment):
@@ -875,22 +885,27 @@ def finding_key(case, res):
 
 
 MANIFEST = {
-    "text": ("Proof, all three clauses at full strength over the decidable invariant `built` of builder-made objects. Lean theorems about "
+    "text": ("Proof, all three clauses at full strength for every expression built through the public DSL. Lean theorems about "
              "executable models of every to_y0() (token printer), of Python's expression grammar on the printed alphabet (precedence "
-             "| < & < + - < * / @ < unary < call/subscript) and of eval(s, {}, LOCALS) over models of P/PP/Sum/Q/One/Zero, the variable "
+             "| < & < + - < * / @ < unary < call/subscript) and of eval(s, {}, LOCALS) over models of P/PP/Sum/Q/One/Zero/TARGET_DOMAIN, the variable "
              "operators and every __mul__/__truediv__ overload: (1) parse_print_ast(_cont): the printed tokens of every well-formed "
              "expression, followed by any continuation, parse to exactly the operator tree of the object - printing is unambiguous; "
              "(2) parse_print_den / parse_print_total: for every built expression (fractions of fractions, fraction factors, constants) "
              "parsing the printed form succeeds and the result has the same denotation in every family of distributions, with no "
              "positivity hypothesis; (3) parse_print_eq / parse_print_same_text: on the simple-division family the parsed object IS "
-             "the original and prints the same text. Not theorems: that Python-built objects satisfy `built`, and that the models agree "
-             "with dsl.py / parser/internal.py / Python's own grammar - decided on every run by seven correspondence streams (objects "
-             "built by the real operators, `tokenize` of str(e), `ast.parse` of str(e), parse_y0(str(e)), the `built` and "
-             "simple-division predicates on the Python object, Python's parser on mutated token strings) plus the oracle."),
+             "the original and prints the same text; (4) built_of_eval: every expression the (model of the) DSL builds from a "
+             "construction tree over the public builders and operators that writes each name once per distribution (`namesOnce`, a "
+             "decidable predicate on the tree, decided on every generated construction by the model and by an independent Python "
+             "implementation) satisfies `built`, so (1)-(3) hold for everything built through the public DSL "
+             "(construction_roundtrip_total, for the total sort key of the code under test; also for the pinned key). Not theorems: that "
+             "the models agree with dsl.py / parser/internal.py / Python's own grammar - decided on every run by eight correspondence "
+             "streams (objects built by the real operators, `tokenize` of str(e), `ast.parse` of str(e), parse_y0(str(e)), the `built`, "
+             "simple-division and names-once predicates, Python's parser on mutated token strings) plus the oracle."),
     "note": ("Trusted: Lean kernel; axioms propext/Classical.choice/Quot.sound; the hand-written models tied to the code by sampling; the "
-             "specification `den` (Spec/Sem); Python's tokenize/ast as the reference for its grammar. Three defects were found by this "
+             "specification `den` (Spec/Sem); Python's tokenize/ast as the reference for its grammar. Four defects were found by this "
              "check and fixed (product denominators printed without parentheses; One/Zero missing from the parser's names; P[...] "
-             "subscripts printed in frozenset order); the models describe the fixed code. One open known finding: PP[TARGET_DOMAIN](..) prints 'PP[pi*](..)', which is not Python. "
+             "subscripts printed in frozenset order; PP[TARGET_DOMAIN](..) printed as 'PP[pi*](..)', which is not Python); the models "
+             "describe the fixed code. "
              "User-chosen names outside the parser's table, empty Q factors and subscript lists naming a variable twice are outside "
              "the quantifier (see assumptions)."),
     "technique": ("Lean 4 theorems (fuel-bounded recursive-descent model of Python's grammar; induction over expressions with the "
